@@ -228,10 +228,12 @@ for _ in range(N):
                             f"(fun r => s!\"({{rs r.1}}, {{rs r.2.1}}, {{r.2.2.1}}, {{r.2.2.2.1}}, {{r.2.2.2.2}})\")", "shS", new_pos)
     Lq = rng.choice([0, L, rng.randint(1, 10**20), -rng.randint(1, 10**12)])
     pinfo = PositionInfo(lo_t, up_t)
+    # the result is (int 0, int 0) for a zero liquidity and Decimals otherwise: the translated type is the number (`num`), so compare the values
+    num2 = lambda r: (Decimal(r[0]), Decimal(r[1]))      # noqa: E731
     case("uc_token_amounts", f"unicore_get_token_amounts NumCtx.py {li(d0)} {li(d1)} {li(lo_t)} {li(up_t)} {li(s)} {li(Lq)}", "shRR",
-         lambda: V3CoreLib.get_token_amounts(upool, pinfo, s, Lq))
+         lambda: num2(V3CoreLib.get_token_amounts(upool, pinfo, s, Lq)))
     case("uc_close_position", f"unicore_close_position NumCtx.py {li(d0)} {li(d1)} {li(lo_t)} {li(up_t)} {li(Lq)} {li(s)}", "shRR",
-         lambda: V3CoreLib.close_position(upool, pinfo, Lq, s))
+         lambda: num2(V3CoreLib.close_position(upool, pinfo, Lq, s)))
     x_at = rng.choice([rand_dec(), Decimal(rng.randint(0, 10**24)), -rand_dec(-3, 8, 6)])
     case("from_atomic_dec", f"uni_from_atomic_unit_dec NumCtx.py {lr(x_at)} {li(d0)}", "shR", lambda: from_atomic_unit(x_at, d0))
     # update_fee: ticks around a range so that every branch (inside, same side, crossing up/down/over, touching a bound) is met
@@ -272,6 +274,12 @@ def shS : Except Err String → String | .ok v => "ok " ++ v | .error e => "err 
 def shX : Except Err XDec → String | .ok (.fin v) => "ok " ++ rs v | .ok .inf => "ok inf" | .error e => "err " ++ shErr e
 """
 
+# the imported modules must be compiled against the current prelude / generated sources (`lake env lean` does not rebuild imports)
+mods = [l.split()[1] for l in HEAD.split("\n") if l.startswith("import ")]
+pb = subprocess.run(["lake", "build"] + mods, cwd=os.path.join(V, "lean"), stdout=subprocess.PIPE, stderr=subprocess.STDOUT, text=True)
+if pb.returncode != 0:
+    print("py2lean_diff: lake build of the generated modules failed:\n" + pb.stdout[-1500:])
+    sys.exit(2)
 with tempfile.NamedTemporaryFile("w", suffix=".lean", delete=False, dir="/tmp") as f:
     f.write(HEAD)
     for _, lean, _ in cases:
